@@ -76,6 +76,37 @@ Definition mdiag (dg : list T) : list (list T) :=
       (combine (seq 0 (length dg)) dg).
 Definition mulMatVec (A : list (list T)) (w : list T) : list T := map (fun row => ndot row w) A.
 
+(* ---- finite-difference kernels of engine_derivative_fd.c *)
+(* diff(dx, x1, x2, h, n): inv_h = 1/h; dx[i] = inv_h * (x2[i] - x1[i]) *)
+Definition fd_diff (x1 x2 : list T) (h : T) : list T :=
+  let inv_h := none / h in map (fun p => inv_h * (snd p - fst p)) (combine x1 x2).
+(* clampedDiff(dx, x, x_plus, x_minus, h, nx): forward, backward, centered or zeros; None = NULL pointer *)
+Definition clampedDiff (x : list T) (xp xm : option (list T)) (h : T) : list T :=
+  match xp, xm with
+  | Some p, None => fd_diff x p h
+  | None, Some q => fd_diff q x h
+  | Some p, Some q => fd_diff q p (ntwo * h)
+  | None, None => map (fun _ => nzero) x
+  end.
+(* inRange(x1, x2, range) *)
+Definition inRange (x1 x2 lo hi : T) : bool :=
+  (lo <=? x1) && (x1 <=? hi) && (lo <=? x2) && (x2 <=? hi).
+(* mjd_stepFD, control loop: nudge_fwd = !limited || inRange(ctrl, ctrl+eps); nudge_back =
+   (flg_centered || !nudge_fwd) && (!limited || inRange(ctrl-eps, ctrl)) *)
+Definition nudge_fwd (limited : bool) (c eps lo hi : T) : bool := negb limited || inRange c (c + eps) lo hi.
+Definition nudge_back (limited centered : bool) (c eps lo hi : T) : bool :=
+  (centered || negb (nudge_fwd limited c eps lo hi)) && (negb limited || inRange (c - eps) c lo hi).
+(* one row of DsDu (or of any output differenced with clampedDiff): g = output as a function of this control *)
+Definition ctrl_column (limited centered : bool) (c eps lo hi : T) (g : T -> list T) : list T :=
+  clampedDiff (g c)
+              (if nudge_fwd limited c eps lo hi then Some (g (c + eps)) else None)
+              (if nudge_back limited centered c eps lo hi then Some (g (c - eps)) else None) eps.
+(* an output that is affine in the control the force law sees: mj_fwdActuation clamps a limited control with mju_clip *)
+Definition clipc (x lo hi : T) : T := if x <? lo then lo else if hi <? x then hi else x.
+Definition aff (a c0 : list T) (u : T) : list T := map (fun p => fst p * u + snd p) (combine a c0).
+Definition gclip (limited : bool) (lo hi : T) (a c0 : list T) (u : T) : list T :=
+  aff a c0 (if limited then clipc u lo hi else u).
+
 (* one actuator as the driver describes it: (disabled or asleep, forcelimited, force, lo, hi, J, g, b, input) *)
 Definition actuator := (bool * bool * T * T * T * list T * (T * T * T) * (T * T * T) * T)%type.
 Definition act_term (nv : nat) (a : actuator) : list (list T) :=
